@@ -1,5 +1,5 @@
 (* Driver entry points for the tree-level reference semantics (C01/C15 and friends). *)
-From Verif Require Import Base.Prelude Base.Wire Model.Tree Model.Spec.
+From Verif Require Import Base.Prelude Base.Wire Model.Tree Model.Spec Model.VM Model.Writer.
 
 (* oracle rows: rune, lower, is_word, is_eword, set-membership bits *)
 Record orow := { o_lower : Z; o_word : bool; o_eword : bool; o_sets : list bool }.
@@ -47,6 +47,20 @@ Definition run_find (args : list Z) : list Z :=
   | _ => bad_case
   end.
 
+(* 102: tree, has_capmap, capmap pairs, capsize -> codes, strings, trackcount, quick codes, slots in use *)
+Definition run_write (args : list Z) : list Z :=
+  match (dlet t <- d_tree ; dlet hm <- d_bool ; dlet m <- d_list (d_pair d_z d_z) ; dlet cs <- d_z ;
+         d_ret (t, hm, m, cs)) args with
+  | Some ((t, hm, m, cs), []) =>
+      let cm := if hm then Some m else None in
+      let '(code, tbl) := write_full cm t in
+      e_zlist code ++ e_list e_zlist tbl ++ [track_count code] ++
+      (match write_quick cm cs t with None => [0] | Some q => 1 :: e_zlist q end) ++
+      e_list e_bool (slots_in_use code cs)
+  | _ => bad_case
+  end.
+
 Definition run01 (leg : Z) (args : list Z) : list Z :=
   if leg =? 101 then run_find args
+  else if leg =? 102 then run_write args
   else bad_case.
